@@ -17,6 +17,20 @@ PROPS = {
         "explanation": "Contracts on DhtKey::distance, KademliaRoutingTable::{get_bucket_index,get_bucket_index_for_key,add_node,remove_node,find_closest_nodes}.",
         "jobs": {"quick": 6, "thorough": 6},
     },
+    "C09": {
+        "verus_units": ["peerrec"],
+        "trusted": COMMON_TRUSTED,
+        "assumptions": [
+            "ideal-crypto contracts: ml_dsa_verify is a deterministic function of (key, message, signature); BLAKE3 injective on its input; UserId::from_public_key a function of the key; postcard::to_stdvec deterministic and injective (nothing is claimed about ML-DSA itself: C08 is not applicable)",
+            "sequential use of one SignatureCache (&mut self)",
+        ],
+        "clauses_not_decided": [
+            "injectivity of the tail of the canonical encoding (sequence, name, endpoints, timestamp, lifetime) is proved only under the documented name bound; None vs Some(\"\") encode identically (a record with an empty name cannot be constructed)",
+            "PeerDHTRecord::new (placeholder signature built from a boxed array; outside the extraction) -- its bounds check is the extracted validate_inputs",
+        ],
+        "explanation": "Verus proves on the mechanically extracted text of validate_inputs, create_signable_message, verify_signature, SignatureCache::{new, cache_key, verify_cached}: construction bounds exact; the signed message is the canonical encoding of every field; verify_signature succeeds iff the user id is derived from the embedded key and the signature verifies over this record; the cache invariant (every memoised verdict equals the direct verdict of every record mapping to that key) is kept for every capacity >= 0 and every eviction choice, hence verify_cached == verify_signature for all histories.",
+        "jobs": {"quick": 4, "thorough": 4},
+    },
     "C12": {
         "verus_units": ["seq"],
         "trusted": COMMON_TRUSTED,
